@@ -40,7 +40,7 @@ use vcore::sgr::{self, MColor, ANSI_COLORS};
 use vcore::vt;
 use wincon::WinconStream;
 
-const RULE: &str = "Inputs and chunkings as in C07/C03 (valid-UTF-8 text + G-SGR + non-SGR sequences; plus arbitrary escape streams incl. malformed UTF-8 for the text/no-escape clauses), fed through write per chunk, write_all per chunk, write_vectored, write! against (a) a recording console writer and (b) console writers that accept short counts or fail (write_all / write! drivers). Oracle: the recorded calls, flattened to (fg, bg, byte), == the reference SGR interpreter's per-character styles with colours reduced by the stated rule (palette -> itself, index < 16 -> palette colour, other indexed / RGB -> default); no 0x1B byte in any data argument; with faults: Ok => everything handed over exactly once, Err => the injected kind (WriteZero for a zero count), what was handed over is a prefix. write() against short counts / failing consoles is an open known finding (F14) and excluded by construction (counted). Non-trivial = at least one call hands over >= 2 runs with different capped colours (distinct by case).";
+const RULE: &str = "Inputs and chunkings as in C07/C03 (valid-UTF-8 text + G-SGR + non-SGR sequences; plus arbitrary escape streams incl. malformed UTF-8 for the text/no-escape clauses), fed through write per chunk, write_all per chunk, write_vectored (also without any buffer), write! with arguments and write! with a bare literal format string, against (a) a recording console writer and (b) console writers that accept short counts or fail (write_all / write! drivers). Oracle: the recorded calls, flattened to (fg, bg, byte), == the reference SGR interpreter's per-character styles with colours reduced by the stated rule (palette -> itself, index < 16 -> palette colour, other indexed / RGB -> default); no 0x1B byte in any data argument; with faults: Ok => everything handed over exactly once, Err => the injected kind (WriteZero for a zero count), what was handed over is a prefix. write() against short counts / failing consoles is an open known finding (F14) and excluded by construction (counted). Non-trivial = at least one call hands over >= 2 runs with different capped colours (distinct by case).";
 
 #[derive(Clone, Copy, Debug, PartialEq, Eq, Serialize, Deserialize)]
 enum CResp {
@@ -158,6 +158,8 @@ enum Driver {
     WriteAll,
     Vectored,
     Fmt,
+    /// write! whose format string is a bare literal: the chunks are literals of vcore::lits
+    Lit,
 }
 
 #[derive(Clone, Debug, Serialize, Deserialize)]
@@ -166,6 +168,9 @@ struct Case {
     cuts: Vec<usize>,
     driver: Driver,
     script: Vec<CResp>,
+    /// for Driver::Lit: the literal behind each chunk
+    #[serde(default)]
+    lits: Vec<usize>,
     /// compare colours (false: only text and the no-escape clause, for streams outside the SGR domain)
     colours: bool,
 }
@@ -184,11 +189,24 @@ fn check(case: &Case) -> Result<bool, String> {
     if !s.is_terminal() {
         return Err("is_terminal() not forwarded".into());
     }
-    let chunks = chunks_from_cuts(&input, &case.cuts);
+    let chunks: Vec<&[u8]> = if case.driver == Driver::Lit {
+        // the chunks are the literals themselves (the empty one included)
+        let cat: Vec<u8> = case.lits.iter().flat_map(|i| vcore::lits::LITS[*i].as_bytes().to_vec()).collect();
+        if cat != input {
+            return Err("bad case: input is not the concatenation of the literals".into());
+        }
+        case.lits.iter().map(|i| vcore::lits::LITS[*i].as_bytes()).collect()
+    } else {
+        chunks_from_cuts(&input, &case.cuts)
+    };
     let mut fed = 0usize;
     let mut error: Option<ErrorKind> = None;
-    for c in &chunks {
+    for (ci, c) in chunks.iter().enumerate() {
         let r: std::io::Result<()> = match case.driver {
+            Driver::Lit => {
+                let _ = c;
+                vcore::lits::write_lit(&mut s, case.lits[ci], false)
+            }
             Driver::Write => {
                 let mut rest: &[u8] = c;
                 let mut res = Ok(());
@@ -214,6 +232,10 @@ fn check(case: &Case) -> Result<bool, String> {
                 let mut rest: &[u8] = c;
                 let mut res = Ok(());
                 while !rest.is_empty() {
+                    let degenerate = if rest.len() % 2 == 1 { s.write_vectored(&[]) } else { s.write_vectored(&[IoSlice::new(&[]), IoSlice::new(&[])]) };
+                    if !matches!(degenerate, Ok(0)) {
+                        return Err(format!("write_vectored without data returned {degenerate:?}"));
+                    }
                     let k = 1 + rest.len() / 2;
                     let bufs = [IoSlice::new(&[]), IoSlice::new(&rest[..k.min(rest.len())]), IoSlice::new(&rest[k.min(rest.len())..])];
                     match s.write_vectored(&bufs) {
@@ -330,7 +352,7 @@ fn run(args: &Args, rep: &mut Report) {
                 .prop_map(|((items, removed), mode, fracs, driver, script)| {
                     let bytes = gen::render(&items);
                     let cuts = cuts_for(&bytes, mode, &fracs);
-                    (Case { hex: rt::hex(&bytes), cuts, driver, script, colours: true }, removed)
+                    (Case { hex: rt::hex(&bytes), cuts, driver, script, lits: vec![], colours: true }, removed)
                 })
         }
     };
@@ -351,6 +373,23 @@ fn run(args: &Args, rep: &mut Report) {
         prop_par("recording-console", args.seed, tier.pick(40_000, 1_000_000), mk(false), body, tojson));
     rep.add("faulty-console", false, "SGR streams x chunkings x {write_all, write!} against consoles answering short counts, zero, Interrupted, WouldBlock, Other",
         prop_par("faulty-console", args.seed, tier.pick(40_000, 1_000_000), mk(true), body, tojson));
+    // formatted writes whose format string is a bare literal
+    let mk_lit = |faults: bool| {
+        move || {
+            (
+                proptest::collection::vec(0..vcore::lits::LITS.len(), 1..6),
+                if faults { proptest::collection::vec(arb_resp(), 1..12).boxed() } else { Just(vec![]).boxed() },
+            )
+                .prop_map(|(lits, script)| {
+                    let bytes: Vec<u8> = lits.iter().flat_map(|i| vcore::lits::LITS[*i].as_bytes().to_vec()).collect();
+                    (Case { hex: rt::hex(&bytes), cuts: vec![], driver: Driver::Lit, script, lits, colours: true }, 0u64)
+                })
+        }
+    };
+    rep.add("literal-format-strings", false, "1..5 write!(stream, <literal>) calls over 35 escape-rich literals (format strings without arguments) against a console that accepts everything",
+        prop_par("literal-format-strings", args.seed, tier.pick(10_000, 300_000), mk_lit(false), body, tojson));
+    rep.add("literal-format-strings-faulty-console", false, "the same against consoles answering short counts, zero, Interrupted, WouldBlock, Other",
+        prop_par("literal-format-strings-faulty-console", args.seed, tier.pick(20_000, 500_000), mk_lit(true), body, tojson));
     rep.exclude("F14: write() against a console that accepts a short count or fails (open known finding)", 1);
     // arbitrary escape streams: text + no-escape clauses only
     rep.add(
@@ -365,7 +404,7 @@ fn run(args: &Args, rep: &mut Report) {
                 (gen::stream(StreamCfg { max_items: 25, ..StreamCfg::ALL }), 0u8..=6, proptest::collection::vec(any::<u16>(), 1..10), prop_oneof![Just(Driver::Write), Just(Driver::WriteAll), Just(Driver::Vectored)]).prop_map(|(items, mode, fracs, driver)| {
                     let bytes = gen::render(&items);
                     let cuts = cuts_for(&bytes, mode, &fracs);
-                    (Case { hex: rt::hex(&bytes), cuts, driver, script: vec![], colours: false }, 0u64)
+                    (Case { hex: rt::hex(&bytes), cuts, driver, script: vec![], lits: vec![], colours: false }, 0u64)
                 })
             },
             body,
@@ -379,7 +418,7 @@ fn run(args: &Args, rep: &mut Report) {
         for b in groups {
             for drv in [Driver::Write, Driver::WriteAll, Driver::Fmt] {
                 let bytes = format!("x\x1b[{a}my\x1b[{b}mz\x1b[{a};{b}mw\x1b[0mv").into_bytes();
-                let case = Case { hex: rt::hex(&bytes), cuts: vec![], driver: drv, script: vec![], colours: true };
+                let case = Case { hex: rt::hex(&bytes), cuts: vec![], driver: drv, script: vec![], lits: vec![], colours: true };
                 acc.eval();
                 match rt::guarded(|| check(&case)) {
                     Ok(nt) => {
